@@ -1,7 +1,7 @@
 """Prototype: convert real tree-sitter CSTs (fragment F0) to the typed Coq concrete syntax and
 emit correspondence shards (source, cfile, implementation output); comparison happens inside Coq."""
 import sys, random, re
-sys.path.insert(0,'/repo')
+import os; sys.path.insert(0, os.environ.get('NIMA_REPO','/repo'))
 from nix_manipulator import parse
 from nix_manipulator.parser import parse_to_ast
 class Unsupported(Exception): pass
